@@ -88,6 +88,9 @@ pub trait Rt {
     /// token a later `hb_acquire` can join with. Used for the data-race detector only.
     fn hb_release(&self) -> u64;
     fn hb_acquire(&self, token: u64);
+    /// The current step changed the state of `obj` outside an announced operation (a handle was
+    /// dropped): part of the step's footprint for partial-order reduction.
+    fn touch(&self, _obj: usize) {}
 }
 
 pub(crate) fn hb_release() -> u64 {
